@@ -281,6 +281,29 @@ def run_rand(shard, rec, B):
                 xg, xp = O.map_image_list(m2[0], m2[1], eg, ep)
                 lg, lp = B.gsps(Mi)
                 rec.check("rot.derived.transform", np.array_equal(lg, xg) and np.array_equal(lp, xp), {"view": "inverse() then rotate then transform", "N": N}, True)
+    # unusual but legal argument forms: zero-length lists, masks given as python lists / tuples of bools
+    for t in range(12):
+        N = int(rng.integers(1, 6))
+        G, PG = gen.rand_nonid(rng, N), 2 * int(rng.integers(2))
+        E = B.PauliList(np.zeros((0, 2 * N), dtype=np.int64), np.zeros(0, dtype=np.int64))
+        ok, R = rec.attempt("rot.empty", [N], lambda: E.rotate_by(B.Pauli(G, PG)))
+        if ok:
+            rec.check("rot.empty", B.np(E.gs).shape == (0, 2 * N) and B.np(E.ps).shape == (0,), ["empty", N], False)
+        if B.name == "np" and N >= 2:
+            qs = gen.rand_subset(rng, N, int(rng.integers(1, N)))
+            Gs = gen.rand_nonid(rng, len(qs))
+            gs, ps = gen.rand_list(rng, 5, N), rng.integers(0, 4, 5)
+            eg, ep = _expected(Gs, PG, gs, ps, qs, N)
+            for form, mk in (("list", [bool(q in qs) for q in range(N)]), ("tuple", tuple(bool(q in qs) for q in range(N))), ("np.bool_", _mask(qs, N))):
+                PL = B.PauliList(gs.copy(), ps.copy())
+                ok, _ = rec.attempt("rot.maskform." + form, [N, qs], lambda: PL.rotate_by(B.Pauli(Gs, PG), mask=mk))
+                if ok:
+                    lg, lp = B.gsps(PL)
+                    rec.check("rot.maskform." + form, np.array_equal(lg, eg) and np.array_equal(lp, ep), {"N": N, "qubits": qs, "form": form}, True)
+            Em = B.PauliList(np.zeros((0, 2 * N), dtype=np.int64), np.zeros(0, dtype=np.int64))
+            ok, _ = rec.attempt("rot.empty", [N, "mask"], lambda: Em.rotate_by(B.Pauli(Gs, PG), mask=_mask(qs, N)))
+            if ok:
+                rec.check("rot.empty", B.np(Em.gs).shape == (0, 2 * N), ["empty.mask", N], False)
     # rotation sequences undone in reverse order, on states and lists
     for t in range(max(20, shard["n"] // 30)):
         N = int(rng.integers(2, 9))
